@@ -487,3 +487,40 @@ def skew_join_input(rng, inp, a, b, swapped):
     rows = [(rng.range(0, n - 1), rng.range(0, 6)) for _ in range(rng.range(1, 2))]
     inp[b] = list(dict.fromkeys((m, z) if swapped else (z, m) for z, m in rows))
     return inp
+
+
+def forced_programs():
+    """shapes the random generator does not produce (it draws arities 1..3 and no facts): WIDE relations (arity 6 / 7 / 8, joined on four columns), NULLARY relations
+    (`done()` in heads and bodies: the full index has the unit key) and FACTS (rules without body) feeding a recursive stratum"""
+    V = lambda *xs: [("v", x) for x in xs]
+    H = lambda *xs: [("var", x) for x in xs]
+    wide = {"rels": [{"arity": 6}, {"arity": 7}, {"arity": 8}, {"arity": 6}],
+            "rules": [{"heads": [(2, H(0, 1, 2, 3, 4, 5, 6, 7))], "body": [("cl", 0, V(0, 1, 2, 3, 4, 5), []), ("cl", 1, V(2, 3, 4, 5, 6, 7, 0), [])]},
+                      {"heads": [(3, H(7, 6, 5, 4, 3, 2))], "body": [("cl", 2, V(0, 1, 2, 3, 4, 5, 6, 7), []), ("cl", 0, V(0, 1, 2, 3, 8, 9), [])]},
+                      {"heads": [(0, H(5, 4, 3, 2, 1, 0))], "body": [("cl", 3, V(0, 1, 2, 3, 4, 5), []), ("if", ("lt", ("var", 0), 3))]}]}
+    nul = {"rels": [{"arity": 1}, {"arity": 0}, {"arity": 1}, {"arity": 0}, {"arity": 2}, {"arity": 0}],
+           "rules": [{"heads": [(1, [])], "body": [("cl", 0, V(0), []), ("if", ("le", 3, ("var", 0)))]},
+                     {"heads": [(2, H(0))], "body": [("cl", 0, V(0), []), ("cl", 1, [], [])]},
+                     {"heads": [(3, [])], "body": [("cl", 1, [], []), ("cl", 2, V(0), []), ("if", ("eq", ("var", 0), 0))]},
+                     {"heads": [(4, H(0, 1))], "body": [("cl", 3, [], []), ("cl", 2, V(0), []), ("cl", 2, V(1), [])]},
+                     {"heads": [(5, [])], "body": [("cl", 1, [], []), ("cl", 3, [], [])]},
+                     {"heads": [(0, [("add", ("var", 0), 1)])], "body": [("cl", 0, V(0), []), ("cl", 5, [], []), ("if", ("lt", ("var", 0), 6))]}]}
+    fac = {"rels": [{"arity": 2}, {"arity": 2}, {"arity": 1}],
+           "rules": [{"heads": [(0, [1, 2])], "body": []}, {"heads": [(0, [2, 3])], "body": []}, {"heads": [(0, [3, 1]), (2, [7])], "body": []},
+                     {"heads": [(1, H(0, 1))], "body": [("cl", 0, V(0, 1), [])]},
+                     {"heads": [(1, H(0, 2))], "body": [("cl", 1, V(0, 1), []), ("cl", 0, V(1, 2), [])]},
+                     {"heads": [(2, H(0))], "body": [("cl", 1, [("v", 0), ("e", 1)], [])]},
+                     {"heads": [(0, [4, ("var", 0)])], "body": [("cl", 2, V(0), []), ("if", ("lt", ("var", 0), 3))]}]}
+
+    return {"fwide": wide, "fnul": nul, "ffac": fac}
+
+
+def forced_input(pid, g, j):
+    if pid == "fwide":
+        base = [tuple(g.below(3) for _ in range(6)) for _ in range(g.range(2, 6))]
+        return {0: list(dict.fromkeys(base)), 1: list(dict.fromkeys([t[2:] + (g.below(3), g.below(3), t[0]) for t in base if g.chance(2, 3)] + [tuple(g.below(3) for _ in range(7))])), 2: [], 3: []}
+    if pid == "fnul":
+        return {0: [(x,) for x in sorted({g.below(5) for _ in range(g.range(1, 4))} | ({0} if j % 2 else set()))], 1: [()] if j % 4 == 3 else [], 2: [], 3: [], 4: [], 5: []}
+    inp = {0: [(g.below(5), g.below(5)) for _ in range(g.below(3))], 1: [], 2: [(g.below(4),)] if j % 2 else []}
+    inp[0] = list(dict.fromkeys(inp[0]))
+    return inp
